@@ -23,6 +23,15 @@ macro_rules! check_era { ($name:expr, $blk:expr, $inner:expr, $variant:ident, $n
     }
 }}; }
 
+/// invalid-transaction lists to try on a block of `k` transactions: the last one alone, and lists that are NOT in ascending order or repeat an index
+fn invalid_lists(k: usize) -> Vec<Vec<u32>> {
+    let mut v: Vec<Vec<u32>> = vec![];
+    if k >= 1 { v.push(vec![(k - 1) as u32]); v.push(vec![0, 0]); }
+    if k >= 2 { v.push(vec![(k - 1) as u32, 0]); v.push(vec![1, 0]); }
+    if k >= 3 { v.push(vec![0, 2, 1]); v.push(vec![2, 0]); }
+    if k >= 5 { v.push(vec![3, 1]); v.push(vec![4, 3, 2, 1, 0]); }
+    v
+}
 fn main() {
     let dir = std::path::Path::new("/repo/test_data");
     let mut names: Vec<String> = std::fs::read_dir(dir).expect("test_data").filter_map(|e| e.ok()).map(|e| e.file_name().to_string_lossy().to_string()).filter(|n| n.ends_with(".block")).collect();
@@ -37,14 +46,16 @@ fn main() {
         let expect = match declared { 0 | 1 => Some(Era::Byron), 2 => Some(Era::Shelley), 3 => Some(Era::Allegra), 4 => Some(Era::Mary), 5 => Some(Era::Alonzo), 6 => Some(Era::Babbage), 7 => Some(Era::Conway), _ => None };
         if let Some(e) = expect { if blk.era() != e { fail(format!("{name}: the wrapper declares era tag {declared}, era() is {:?}", blk.era())); } }
         match &blk {
-            MultiEraBlock::AlonzoCompatible(b, _) => { check_era!(name, blk, b, as_alonzo, n); }
+            MultiEraBlock::AlonzoCompatible(b, era) => { check_era!(name, blk, b, as_alonzo, n);
+                if *era == Era::Alonzo { for l in invalid_lists(b.transaction_bodies.len()) { let mut b2 = (**b).clone(); b2.invalid_transactions = Some(l.clone()); let blk2 = MultiEraBlock::AlonzoCompatible(Box::new(b2.clone()), Era::Alonzo); check_era!(format!("{name} (transactions {l:?} listed invalid)"), blk2, b2, as_alonzo, n); } }
+            }
             MultiEraBlock::Babbage(b) => {
                 check_era!(name, blk, b, as_babbage, n);
-                if !b.transaction_bodies.is_empty() { let mut b2 = (**b).clone(); b2.invalid_transactions = Some(vec![(b2.transaction_bodies.len() - 1) as u32]); let blk2 = MultiEraBlock::Babbage(Box::new(b2.clone())); check_era!(format!("{name} (last tx listed invalid)"), blk2, b2, as_babbage, n); }
+                for l in invalid_lists(b.transaction_bodies.len()) { let mut b2 = (**b).clone(); b2.invalid_transactions = Some(l.clone()); let blk2 = MultiEraBlock::Babbage(Box::new(b2.clone())); check_era!(format!("{name} (transactions {l:?} listed invalid)"), blk2, b2, as_babbage, n); }
             }
             MultiEraBlock::Conway(b) => {
                 check_era!(name, blk, b, as_conway, n);
-                if !b.transaction_bodies.is_empty() { let mut b2 = (**b).clone(); b2.invalid_transactions = Some(vec![(b2.transaction_bodies.len() - 1) as u32]); let blk2 = MultiEraBlock::Conway(Box::new(b2.clone())); check_era!(format!("{name} (last tx listed invalid)"), blk2, b2, as_conway, n); }
+                for l in invalid_lists(b.transaction_bodies.len()) { let mut b2 = (**b).clone(); b2.invalid_transactions = Some(l.clone()); let blk2 = MultiEraBlock::Conway(Box::new(b2.clone())); check_era!(format!("{name} (transactions {l:?} listed invalid)"), blk2, b2, as_conway, n); }
             }
             MultiEraBlock::Byron(b) => { if blk.txs().len() != b.body.tx_payload.len() || blk.tx_count() != blk.txs().len() { fail(format!("{name}: Byron transaction count mismatch")); } n += blk.txs().len() as u64; }
             MultiEraBlock::EpochBoundary(_) => { if !blk.txs().is_empty() || blk.tx_count() != 0 { fail(format!("{name}: an epoch-boundary block yields transactions")); } }
